@@ -68,6 +68,30 @@ class WithProperty:
     value = property(_getter)
 
 
+class _ClassLevel:
+    """A descriptor that runs code even when it is looked up on the class (as classmethod, cached singletons and ORM fields do)."""
+    def __get__(self, obj, owner):
+        record("class-level-descriptor-get")
+        return owner()
+
+
+class _Meta(type):
+    @property
+    def current(cls):
+        record("metaclass-property-get")
+        return cls()
+
+
+class Settings(metaclass=_Meta):
+    instance = _ClassLevel()
+
+    def __init__(self):
+        record("settings-init")
+
+    class Nested:
+        VALUE = 7
+
+
 class GenLike(collections.abc.Generator):
     """Speaks the generator protocol without being a native generator object."""
     def send(self, value):
